@@ -981,6 +981,18 @@ class HttpPayloadParser:
     def feed_data(
         self, chunk: bytes, SEP: _SEP = b"\r\n", CHUNK_EXT: bytes = b";"
     ) -> tuple[PayloadState, bytes]:
+        state, tail = self._feed_data(chunk, SEP, CHUNK_EXT)
+        if state is not PayloadState.PAYLOAD_HAS_PENDING_INPUT:
+            # Nothing is held back for a later resume. A pause request that
+            # was not consumed must not leak into a later call: the reader
+            # may already have resumed, and a stale flag would park input
+            # with nobody left to ask for it.
+            self._paused = False
+        return state, tail
+
+    def _feed_data(
+        self, chunk: bytes, SEP: _SEP = b"\r\n", CHUNK_EXT: bytes = b";"
+    ) -> tuple[PayloadState, bytes]:
         """Receive a chunk of data to process.
 
         Return:
